@@ -17,7 +17,52 @@ def leaves(r):
   return [r.randint(2, 5), 's', 't', None, Tok(r.randint(1, 4)), (2, 's')]
 
 
+_SD = Tok(0)       # one memoizable default object shared by two parameters
+
+
+def shared_defaults(u=_SD, w=_SD, n=2):
+  return targets.Rec('shared_defaults', [('u', u), ('w', w), ('n', n)], (), {})
+
+
+class LateBox:
+  """A container type that gets its daglish traverser only AFTER it has been compared once."""
+
+  def __init__(self, item):
+    self.item = item
+
+  def __eq__(self, other):
+    return isinstance(other, LateBox) and self.item == other.item
+
+  def __hash__(self):
+    return 1
+
+
+def scenario_pairs(name):
+  """Hand-made pairs (a, b, expect_equal)."""
+  if name == 'shared_defaults':
+    a = fdl.Config(shared_defaults)
+    yield a, fdl.Config(shared_defaults, u=Tok(0), w=Tok(0)), False     # shared default vs two objects
+    one = Tok(0)
+    yield a, fdl.Config(shared_defaults, u=one, w=one), True
+    yield fdl.Config(shared_defaults, n=3), fdl.Config(shared_defaults, n=3, u=Tok(0), w=Tok(0)), False
+    yield fdl.Config(shared_defaults, u=Tok(0), w=Tok(0)), fdl.Config(shared_defaults, u=Tok(0), w=Tok(0)), True
+  elif name == 'late_registration':
+    f = graphs.node_fn(1, 0)
+    x1 = [1]
+    yield fdl.Config(f, p=LateBox(x1), q=2), fdl.Config(f, p=LateBox([1]), q=2), True   # first contact
+    try:
+      daglish.register_node_traverser(
+          LateBox, flatten_fn=lambda b: ((b.item,), None), unflatten_fn=lambda v, _: LateBox(*v),
+          path_elements_fn=lambda b: (daglish.Attr('item'),))
+    except ValueError:
+      pass
+    s1 = [1]
+    yield fdl.Config(f, p=LateBox(s1), q=s1), fdl.Config(f, p=LateBox([1]), q=[1]), False  # alias into the box
+
+
 def cases(tier, r):
+  yield 'scenario', {'scenario': 'shared_defaults', 'seed': 0}
+  yield 'scenario', {'scenario': 'late_registration', 'seed': 0}
   for _ in range(900 if tier == 'quick' else 15000):
     yield 'pair', {'seed': r.getrandbits(48), 'size': r.choice([3, 5, 8]),
                    'rewrites': [r.choice(REWRITES) for _ in range(2)], 'mixed': r.random() < 0.3}
@@ -198,7 +243,32 @@ def reaches(a, b):
   return any(v is b for v, _ in daglish.iterate(a))
 
 
-BREAKING = [rb_leaf, rb_callable, rb_type, rb_unshare, rb_share]
+def rb_unshare_shallow(r, cfg):
+  """A SHALLOW copy (children physically shared with the original) in which one top-level
+  argument that aliases an object inside another argument is replaced by an equal copy."""
+  c = copy.copy(cfg)
+  keys = [k for k in c.__arguments__ if isinstance(k, str)]
+  r.shuffle(keys)
+  for k in keys:
+    v = c.__arguments__[k]
+    if graphs.is_internable(v) or isinstance(v, Tok):
+      continue
+    for k2 in keys:
+      if k2 != k and any(x is v for x, _ in daglish.iterate(c.__arguments__[k2])):
+        try:
+          setattr(c, k, copy.deepcopy(v))
+        except AttributeError:
+          continue
+        return c
+  return None
+
+
+def rw_shallow(r, cfg):
+  return copy.copy(cfg)
+
+
+PRESERVING.append(rw_shallow)
+BREAKING = [rb_leaf, rb_callable, rb_type, rb_unshare, rb_share, rb_unshare_shallow]
 REWRITES = [f.__name__ for f in PRESERVING + BREAKING]
 BY_NAME = {f.__name__: f for f in PRESERVING + BREAKING}
 
@@ -219,6 +289,16 @@ def build_canon(c):
 
 
 def execute(case):
+  if case.get('scenario'):
+    obs = {'refl': (True, False), 'pairs': [], 'reqs': []}
+    for a, b, expect in scenario_pairs(case['scenario']):
+      eq, ne = safe_eq(a, b)
+      eq_rev, _ = safe_eq(b, a)
+      obs['pairs'].append({'rewrite': case['scenario'], 'eq': eq, 'ne': ne, 'eq_rev': eq_rev,
+                           'preserving': expect, 'builds_equal': build_canon(a) == build_canon(b)})
+      if case['scenario'] == 'shared_defaults':
+        obs['reqs'].append({'p': 'eq', 'a': graphs.encode(a)[0], 'b': graphs.encode(b)[0]})
+    return obs, None
   r = random.Random(case['seed'])
   a = base_config(r, case)
   variants = []
@@ -256,6 +336,8 @@ def compare(real, model):
   if 'drv' not in _drv:
     _drv['drv'] = common.Driver()
   diffs = []
+  if len(real['reqs']) != len(real['pairs']):
+    return []
   for rec, req in zip(real['pairs'], real['reqs']):
     m = _drv['drv'].ask(req)
     if rec['eq'] != m['eq'] or rec['eq_rev'] != m['eq_rev']:
